@@ -29,6 +29,12 @@ def observe(n, maxb, d):
         "flat": [int(x) for x in np.asarray(batched).reshape(-1)],
         "un": [], "width": [],
     }
+    # float-typed states with a fractional part: s + 1/2 must come back as s + 1/2, padding as 0, dtype unchanged
+    fstates = (jnp.arange(1, n + 1, dtype=jnp.float64) + 0.5).reshape(n, 1)
+    fb = bp.prepare_batches(fstates)
+    same_type = str(fb.dtype) == str(fstates.dtype)
+    obs["flatf"] = [(int(x - 0.5) if (x - 0.5) == int(x - 0.5) and x > 0 else (0 if x == 0 else -7)) if same_type else -7
+                    for x in np.asarray(fb, dtype=np.float64).reshape(-1)]
     slots = shape[0] * shape[1] * shape[2]
     for trailing, w in WIDTHS:
         planted = (np.arange(1, slots + 1).reshape(-1, 1) * 100 + np.arange(w).reshape(1, -1))
@@ -48,7 +54,7 @@ def main():
             out.append(observe(n, maxb, d))
         except Exception as ex:  # an exception is an observation too (layout impossible)
             out.append({"n": n, "maxb": maxb, "d": d or 0, "nd": 0, "nb": 0, "bs": 0, "pad": -1,
-                        "shape": [], "flat": [], "un": [[-1], [-1], [-1]], "width": [1, 2, 6],
+                        "shape": [], "flat": [], "flatf": [], "un": [[-1], [-1], [-1]], "width": [1, 2, 6],
                         "error": repr(ex)[:200]})
     json.dump(out, open(req["out"], "w"))
 
